@@ -523,17 +523,51 @@ def rule_direct_solver(rep: Report, repo: Repo):
         from .resolve import rtext, run_block
         # innermost loop over degenerate groups
         from .resolve import env_at as _ea7, resolved as _res7
-        loops = [n for n in ast.walk(gg[0]) if isinstance(n, ast.For) and "_group_close_energies" in norm(_res7(n.iter, _ea7(n, gg[0])))]
+        ZIPPED = ["eigenvalues", "right_kernel_subspaces", "left_kernel_subspaces"]
+        OPN, FLAG = "operator", "conjugate_kernel"
+        host = gg[0]
+        loops = [n for n in ast.walk(host) if isinstance(n, ast.For) and "_group_close_energies" in norm(_res7(n.iter, _ea7(n, host)))]
+        if not loops:
+            # the per-subspace work may live in a helper called once per (energies, right kernels, left kernels) of a subspace
+            from .sem import bind_args as _bind7
+            helpers = [d for d in nested_defs(outer) if d is not gg[0] and any(
+                isinstance(n, ast.For) and "_group_close_energies" in norm(_res7(n.iter, _ea7(n, d))) for n in ast.walk(d))]
+            calls = [c for c in ast.walk(gg[0]) if isinstance(c, ast.Call) and helpers and call_name(c) == helpers[0].name]
+            if len(helpers) != 1 or len(calls) != 1:
+                raise AnalysisError(R, "grouped_greens_functions: loop over energy groups not found")
+            host = helpers[0]
+            comp = getattr(calls[0], "_parent", None)
+            if not (isinstance(comp, (ast.ListComp, ast.GeneratorExp)) and comp.elt is calls[0] and len(comp.generators) == 1
+                    and not comp.generators[0].ifs and isinstance(comp.generators[0].target, ast.Tuple) and len(comp.generators[0].target.elts) == 3
+                    and isinstance(comp.generators[0].iter, ast.Call) and call_name(comp.generators[0].iter) == "zip"
+                    and [norm(a) for a in comp.generators[0].iter.args] == ZIPPED):
+                raise AnalysisError(R, "grouped_greens_functions: the per-subspace helper is not applied over zip(energies, right kernels, left kernels)")
+            rts = [n for n in own_nodes(gg[0]) if isinstance(n, ast.Return)]
+            if len(rts) != 1 or rts[0].value is not comp and not (isinstance(rts[0].value, ast.Call) and call_name(rts[0].value) == "list" and rts[0].value.args[0] is comp):
+                raise AnalysisError(R, "grouped_greens_functions: does not return the list of per-subspace results")
+            b7 = _bind7(host, calls[0])
+            if b7 is None:
+                raise AnalysisError(R, "grouped_greens_functions: the call of the per-subspace helper cannot be bound")
+            tnames = [norm(e) for e in comp.generators[0].target.elts]
+            inv = {norm(v): k for k, v in b7.items()}
+            if not all(t in inv for t in tnames) or "operator" not in inv or "conjugate_kernel" not in inv:
+                raise AnalysisError(R, "grouped_greens_functions: the per-subspace helper does not receive the subspace data, the operator and the flag")
+            EN, RK, LK = (inv[t] for t in tnames)
+            OPN, FLAG = inv["operator"], inv["conjugate_kernel"]
+            loops = [n for n in ast.walk(host) if isinstance(n, ast.For) and "_group_close_energies" in norm(_res7(n.iter, _ea7(n, host)))]
+            # the helper returns one entry per state: a list filled at the positions of each group
+            ol = None
         if len(loops) != 1:
             raise AnalysisError(R, "grouped_greens_functions: loop over energy groups not found")
         gl = loops[0]
-        gl_iter = _res7(gl.iter, _ea7(gl, gg[0]))
-        # the enclosing loop gives the names of (energies, right kernel basis, left kernel basis) of one subspace
-        ol = getattr(gl, "_parent", None)
-        if not (isinstance(ol, ast.For) and isinstance(ol.target, ast.Tuple) and len(ol.target.elts) == 3 and isinstance(ol.iter, ast.Call)
-                and call_name(ol.iter) == "zip" and [norm(a) for a in ol.iter.args] == ["eigenvalues", "right_kernel_subspaces", "left_kernel_subspaces"]):
-            raise AnalysisError(R, "grouped_greens_functions: loop over (energies, right kernels, left kernels) of the subspaces not understood")
-        EN, RK, LK = (norm(e) for e in ol.target.elts)
+        gl_iter = _res7(gl.iter, _ea7(gl, host))
+        if host is gg[0]:
+            # the enclosing loop gives the names of (energies, right kernel basis, left kernel basis) of one subspace
+            ol = getattr(gl, "_parent", None)
+            if not (isinstance(ol, ast.For) and isinstance(ol.target, ast.Tuple) and len(ol.target.elts) == 3 and isinstance(ol.iter, ast.Call)
+                    and call_name(ol.iter) == "zip" and [norm(a) for a in ol.iter.args] == ZIPPED):
+                raise AnalysisError(R, "grouped_greens_functions: loop over (energies, right kernels, left kernels) of the subspaces not understood")
+            EN, RK, LK = (norm(e) for e in ol.target.elts)
         # the group variable: the loop target itself, or the zip component that iterates the groups
         if isinstance(gl.target, ast.Name):
             GRP, grp_iter = gl.target.id, gl_iter
@@ -550,9 +584,9 @@ def rule_direct_solver(rep: Report, repo: Repo):
         for flag in (True, False):
             def atom(n, flag=flag):
                 t = norm(n)
-                if t == "conjugate_kernel":
+                if t == FLAG:
                     return flag
-                if t == "not conjugate_kernel":
+                if t == f"not {FLAG}":
                     return not flag
                 return None
             paths = [p for p in enum_paths(gl.body, atom) if p.end == "fallthrough"]
@@ -569,7 +603,7 @@ def rule_direct_solver(rep: Report, repo: Repo):
                 want_k = f"{RK}[:, {GRP}]{cj}"
                 want_l = f"{LK}[:, {GRP}]{cj}"
                 tag = "transposed problem (conjugated kernels)" if flag else "direct problem"
-                ok = args[:2] == ["operator", f"{EN}[{GRP}[0]]"]
+                ok = args[:2] == [OPN, f"{EN}[{GRP}[0]]"]
                 inst = f"{MOD}::solve_sylvester_direct::grouped_greens_functions [{tag}] Green's function of `operator` at the group's own energy"
                 if ok:
                     rep.ok(R, inst, f"energy argument resolves to {args[1]}", loc(c))
